@@ -518,7 +518,7 @@ func runFaultCheck(c *explore.Ctx, id string, cfgs []string, histories [][]strin
 			t := tasks[start+i]
 			var r faultResult
 			if err != nil {
-				r.Viol = []string{"worker crashed or timed out: " + err.Error()}
+				r.Viol = explore.CrashViol(err)
 				r.Hang = r.Viol
 			} else {
 				json.Unmarshal(b, &r)
